@@ -202,9 +202,6 @@ Print Assumptions C14_fill_end_refuted.
 Theorem C14_merge_tie_refuted : refutes w_merge_tie = true.
 Proof. exact merge_tie_refuted. Qed.
 Print Assumptions C14_merge_tie_refuted.
-Theorem C14_some_value_refuted : refutes w_some_value = true.
-Proof. exact some_value_refuted. Qed.
-Print Assumptions C14_some_value_refuted.
 Theorem C14_reduce_refuted : refutes w_reduce_empty = true /\ refutes w_reduce_start = true.
 Proof. exact reduce_refuted. Qed.
 Print Assumptions C14_reduce_refuted.
